@@ -308,6 +308,30 @@ theorem topup_is_one_signed_transfer (n : Nat) :
 theorem cached_missing_errs (W : Nat) (op : CleanOp) :
     cleanupZc env W op (.cached none) tgt s = (.err op.missing, s) := rfl
 
+/-- A derived account set that marks one field `funder` and another `recipient` (either declaration
+order): after its validation, `CloseAccount(())` / `RefundRent(())` pay the DECLARED recipient and
+`NormalizeRent(())` / `ReceiveRent(())` draw on the DECLARED funder — the cleanup is exactly the
+explicit-argument operation on that account, so the account that is neither the target nor the
+declared counterpart keeps its balance. -/
+theorem derived_set_uses_declared_accounts (ty : AcctType) (order : Order) (op : CleanOp)
+    (fk rk : Key)
+    (hv : (runSet env ty order op fk rk tgt s).1 = .ok ()) :
+    runSet env ty order op fk rk tgt s =
+      runOp env ty.W op { key := if op = .normalize ∨ op = .receive then fk else rk, seeds := none } tgt s ∧
+    ∀ k, k ≠ tgt → k ≠ (if op = .normalize ∨ op = .receive then fk else rk) →
+      (runSet env ty order op fk rk tgt s).2.w k = s.w k := by
+  have key : runSet env ty order op fk rk tgt s =
+      runOp env ty.W op { key := if op = .normalize ∨ op = .receive then fk else rk, seeds := none } tgt s := by
+    unfold runSet at hv ⊢
+    simp only [] at hv ⊢
+    split at hv; · cases hv
+    split at hv; · cases hv
+    split at hv; · cases hv
+    cases op <;> simp [cleanupZc, cachedAfterValidate]
+  refine ⟨key, fun k hk1 hk2 => ?_⟩
+  rw [key]
+  exact only_named_accounts_change env _ tgt s ty.W op k hk1 hk2
+
 /-- `refund_below_min_witness` (D13): the literal reading "refunding leaves at least the minimum"
 is FALSE of the code — an account holding `0 < lamports < rentMin` is answered `Ok` and left exactly
 where it was, below the minimum. (With zero lamports the answer is `InsufficientFunds`.) -/
